@@ -576,7 +576,7 @@ Section Ops.
             w <- delete_block c brev ;;
             match w with
             | inr EConflict => rbh_one f c h
-            | inr ENotFound => after
+            | inr ENotFound => Ret (inl tt)   (* somebody else deleted the block: nothing released, no decrement *)
             | inl _ => after
             | inr e => Ret (inr e)
             end
@@ -607,16 +607,37 @@ Section Ops.
     | inl (m, _) => rbh_blocks (map fst (order_by hint m)) h
     end.
 
+  (* c is a block of pool p *)
+  Definition is_blockb (p : pool) (c : N) : bool := existsb (N.eqb c) (map (pool_block p) (seq 0 (p_nblocks p))).
+
+  (* ipamClient.ReleaseAffinity(cidr, host, mustBeEmpty) for a CIDR that is exactly one block of its pool
+     (the affinity released is always "host:<node>") *)
+  Definition release_affinity (node c : N) (must : bool) : prog result :=
+    match find_pool (enabled_pools cf) c with
+    | None => Ret (RErr EOther)
+    | Some p =>
+        if is_blockb p c then
+          r <- release_aff_loop R (2 * node) c must ;;
+          match r with
+          | ResErr e => Ret (RErr e)
+          | ResIPs _ e => Ret (RErr e)
+          | ResClaim _ _ e => Ret (RErr e)
+          end
+        else Ret (RErr EOutOfModel)
+    end.
+
   Inductive op :=
   | OpAutoAssign (q : request)
   | OpRelease (opts : list (N * option N))
-  | OpReleaseByHandle (h : N) (hint : list N).
+  | OpReleaseByHandle (h : N) (hint : list N)
+  | OpReleaseAffinity (node c : N) (must : bool).
 
   Definition compile (o : op) : prog result :=
     match o with
     | OpAutoAssign q => auto_assign q
     | OpRelease opts => release_ips opts
     | OpReleaseByHandle h hint => release_by_handle h hint
+    | OpReleaseAffinity node c must => release_affinity node c must
     end.
 End Ops.
 
@@ -636,3 +657,16 @@ Fixpoint run_ops (cf : config) (s : store) (ops : list op) : store * list result
   | o :: t => let '(s1, r) := run s (compile cf o) in
               let '(s2, rs) := run_ops cf s1 t in (s2, r :: rs)
   end.
+
+(* ------------------------------------------------------------------ one preemption
+   An operation performs its first k datastore accesses, then other (complete) operations run, then it resumes.
+   The correspondence driver produces such schedules with the membackend scheduler. *)
+Fixpoint run_upto {A} (s : store) (p : prog A) (k : nat) : store * prog A :=
+  match k, p with
+  | S k', Act rq cont => let '(s', rs) := exec s rq in run_upto s' (cont rs) k'
+  | _, _ => (s, p)
+  end.
+
+Inductive item :=
+| IOp (o : op)
+| IPre (o : op) (k : nat) (inner : list op).
